@@ -5,6 +5,8 @@ package shmipc
 // Engine E1 common layer: generated schedules (plain data) and the picker that interprets them.
 
 import (
+	"strings"
+
 	"github.com/cloudwego/shmipc-go/vsched"
 	"pgregory.net/rapid"
 )
@@ -23,11 +25,23 @@ type schedPlan struct {
 	Preempt [][2]int `json:"preempt,omitempty"`
 	Stay    int      `json:"stay,omitempty"`
 	Seed    uint64   `json:"seed,omitempty"`
+	// Hot: pct change points / preemption steps count only decisions taken right after an "interesting" point
+	// (atomic op, connection write, lock, channel op) of the running thread
+	Hot bool `json:"hot,omitempty"`
 }
 
 func genSchedPlan(t *rapid.T, nthreads, maxStep, maxDepth int) schedPlan {
+	return genSchedPlanHot(t, nthreads, maxStep, maxDepth, 0)
+}
+
+// genSchedPlanHot: hotStep > 0 enables plans whose change points are counted over "interesting" points only (range 1..hotStep)
+func genSchedPlanHot(t *rapid.T, nthreads, maxStep, maxDepth, hotStep int) schedPlan {
 	kind := rapid.SampledFrom([]string{"pct", "pct", "pct", "preempt", "preempt", "walk"}).Draw(t, "sched")
 	p := schedPlan{Kind: kind}
+	if hotStep > 0 && kind != "walk" && rapid.IntRange(0, 2).Draw(t, "hot") != 0 {
+		p.Hot = true
+		maxStep = hotStep
+	}
 	switch kind {
 	case "pct":
 		p.Prio = rapid.Permutation(seqInts(nthreads + 4)).Draw(t, "prio")
@@ -60,6 +74,11 @@ type schedObs struct {
 	preemptions int // a switch away from a thread that was still enabled
 	onSwitch    func(from, to int, preemptive bool)
 	onStep      func(cur int) // called at every scheduling decision, before the chosen thread runs
+	lastPoint   func(tid int) string
+}
+
+func hotPoint(pt string) bool {
+	return strings.HasPrefix(pt, "atomic.") || strings.HasPrefix(pt, "memConn") || strings.HasPrefix(pt, "mutex") || strings.HasPrefix(pt, "rw.") || strings.HasPrefix(pt, "chan.") || pt == "gosched"
 }
 
 func (p schedPlan) picker(obs *schedObs) vsched.Picker {
@@ -76,9 +95,19 @@ func (p schedPlan) picker(obs *schedObs) vsched.Picker {
 		return v
 	}
 	seed := p.Seed
+	hotStep := 0
 	return func(enabled []int, cur int, step int) int {
 		if obs != nil && obs.onStep != nil {
 			obs.onStep(cur)
+		}
+		if p.Hot && obs != nil && obs.lastPoint != nil {
+			// renumber: only decisions after a hot point advance the counter; others get step 0 (matches no change point)
+			if cur >= 0 && hotPoint(obs.lastPoint(cur)) {
+				hotStep++
+				step = hotStep
+			} else {
+				step = 0
+			}
 		}
 		has := func(id int) bool {
 			for _, e := range enabled {
